@@ -134,6 +134,11 @@ def charset():
     bmp.update([0x20AC, 0x2018, 0x2026, 0x0152, 0x017D, 0x0192, 0x02C6,
                 0x2122, 0xD7FF, 0xE000, 0xFFFD, 0xFFFE, 0xFFFF, 0x0391,
                 0x4E2D, 0x3042, 0xAC00, 0xFB01, 0xFEFF])
+    # compatibility forms of the markup characters, the blanks and the line
+    # separators beyond Latin-1, case-folding specials
+    bmp.update([0xFF06, 0xFF1C, 0xFF1E, 0xFF02, 0xFF07, 0xFE64, 0xFE65,
+                0xFE60, 0x2028, 0x2029, 0x3000, 0x2003, 0x200B, 0x1E9E,
+                0x0130, 0x0131, 0x017F, 0x03C2, 0xFF11, 0x0663])
     for i in range(0x100, 0x100 + 150):
         bmp.add(i * 97 % 0xD700 + 0x100)
     chars += [chr(i) for i in sorted(bmp) if i >= 256 and
